@@ -160,7 +160,7 @@ def _lazy_job(state, case):
         where = f"{name} on {sp.describe()}"
         key = f"R09.5|{name.split(' ; ')[-1].split(' ')[0]}|{anchor.fq}"
         try:
-            outs, lines, completed = [], set(), 0
+            outs, lines, dirty, completed = [], set(), set(), 0
             for synced in (False, True):
                 ev = w.ev()
                 try:
@@ -172,7 +172,7 @@ def _lazy_job(state, case):
                         x = w.meth(ev, x, "phase_sync")
                         ys = [w.meth(ev, y, "phase_sync") for y in ys]
                     minieval.TRACE = None if synced else lines
-                    minieval.LAZY_AT = internal if synced else None
+                    minieval.LAZY_AT = dirty if synced else None
                     try:
                         r = fn(ev, x, *ys)
                     finally:
@@ -189,8 +189,13 @@ def _lazy_job(state, case):
                     outs.append(("fails", type(e).__name__))
             wit.tick("R09.5")
             if completed == 2 and outs[0] == outs[1]:
-                # only an evaluation that ran to a result on both twins vouches for the statements it went through
-                reached |= lines
+                # only an evaluation that ran to a result on both twins vouches for the statements it went through, and only for the
+                # (entry, statement) pairs in which the twins differ exactly in the entry's operand: on the synchronised twin the entry
+                # was not entered with pending signs and no array in scope at the statement carried any
+                reached |= (lines - {d_[1:] for d_ in dirty})
+            # a call entered WITHOUT pending signs on the synchronised twin that nevertheless has an array with pending signs in scope at a
+            # statement produced those signs itself: no twin evaluation can vouch for how that statement treats them
+            internal |= {d_[1:] for d_ in dirty if d_[0] == "produced"}
             if any(isinstance(o, tuple) and o and o[0] == "does not terminate" for o in outs):
                 wit.bad(key, f"{where}: the evaluation does not terminate (loop bound exceeded)")
                 break  # every further program would hit the same loop
